@@ -85,6 +85,12 @@ func (index *GsfaReader) Meta() indexmeta.Meta {
 	return index.man.Meta()
 }
 
+// OffsetsMeta returns the metadata (epoch, root CID, network, kind) recorded in the
+// pubkey-to-offset-and-size index of this gsfa index.
+func (index *GsfaReader) OffsetsMeta() *indexes.Metadata {
+	return index.offsets.Meta()
+}
+
 func (index *GsfaReader) Version() uint64 {
 	return index.man.Version()
 }
